@@ -179,14 +179,16 @@ def parse_unit(path):
                     fn.rewrites.append((rule, mm.group(1), mm.group(2), multi))
                 pending = (setter, [m.group(2)])
             elif first == 'insert':
-                m = re.match(r'(after|before|start|end)\s*(?:`(.*?)`)?\s*:\s*(.*)$', rest, re.S)
+                m = re.match(r'(after|before|start|end)(?:\[(\d+)\])?\s*(?:`(.*?)`)?\s*:\s*(.*)$', rest, re.S)
                 if not m:
                     err('bad insert')
-                where, anchor = m.group(1), m.group(2)
+                where, anchor = m.group(1), m.group(3)
+                if m.group(2):
+                    anchor = (anchor, int(m.group(2)))
 
                 def setter(t, where=where, anchor=anchor, fn=cur):
                     fn.inserts.append((where, anchor, t))
-                pending = (setter, [m.group(3)])
+                pending = (setter, [m.group(4)])
             i += 1
             continue
         if pending is not None:
@@ -457,6 +459,9 @@ def assemble(unit, canary=False):
 
 
 def find_unique(src, needle, a, b, what):
+    nth = None
+    if isinstance(needle, tuple):
+        needle, nth = needle
     hits = []
     start = a
     while True:
@@ -466,6 +471,10 @@ def find_unique(src, needle, a, b, what):
         if src.kind[j] != COMMENT:
             hits.append(j)
         start = j + 1
+    if nth is not None:
+        if nth > len(hits):
+            raise Lost(f'lost anchor: {what}: occurrence {nth} of `{needle}` not found ({len(hits)} present)')
+        return hits[nth - 1]
     if len(hits) != 1:
         raise Lost(f'lost anchor: {what}: `{needle}` occurs {len(hits)} times in {os.path.basename(src.path)} '
                    f'lines {src.line_of(a)}-{src.line_of(b)}')
@@ -539,7 +548,8 @@ def emit_fn(asm, unit, fs, src, canary):
     for where, anchor, text in fs.inserts:
         if where in ('after', 'before'):
             j = find_unique(src, anchor, bo, bc + 1, f'insert in {fs.qual}')
-            p = j + len(anchor) if where == 'after' else j
+            alen = len(anchor[0]) if isinstance(anchor, tuple) else len(anchor)
+            p = j + alen if where == 'after' else j
             ed.edits.append((p, p, '\n' + text + '\n', ('proof', fs.qual)))
         elif where == 'end':
             ed.edits.append((bc, bc, '\n' + text + '\n', ('proof', fs.qual)))
